@@ -7,5 +7,6 @@ CONSTANTS
   PublishAtomic = TRUE
   UnrefIsValid = TRUE
   InitMayFail = FALSE
+  IsValidSync = FALSE
 INVARIANTS Mutex OnceOnly InitComplete InitVisible RefBalance StateIffCount UseValid FullLength Distinct
 POSTCONDITION TraceAccepted
